@@ -13,7 +13,7 @@ mkdir -p "$BIN"
 
 build() { # $1 = output name, $2.. = extra go build flags
   local out="$BIN/$1"; shift
-  ( cd "$SIM" && cp /repo/go.sum go.sum && go build "$@" -o "$out" . ) 2>"$BIN/build.$$.log"
+  ( cd "$SIM" && cp /repo/go.sum go.sum && go build -tags verif "$@" -o "$out" . ) 2>"$BIN/build.$$.log"
   local rc=$?
   if [ $rc -ne 0 ]; then
     echo "INFRA: build against /repo working tree failed:" >&2
@@ -40,7 +40,7 @@ case "$1" in
     build "simkv-$1" -race
     if [ "${2:-quick}" = "thorough" ] && command -v go1.26.8 >/dev/null 2>&1; then
       # second Go runtime (other scheduler, map seeds, race runtime): half of the workers use it
-      ( cd "$SIM" && go1.26.8 build -race -o "$BIN/simkv-$1-alt" . ) 2>/dev/null && export SIMKV_ALT_BIN="$BIN/simkv-$1-alt"
+      ( cd "$SIM" && go1.26.8 build -tags verif -race -o "$BIN/simkv-$1-alt" . ) 2>/dev/null && export SIMKV_ALT_BIN="$BIN/simkv-$1-alt"
     fi
     exec "$BIN/simkv-$1" check -prop "$1" -tier "${2:-quick}" ;;
   C*)
